@@ -669,8 +669,8 @@ func Delete(ctx context.Context, scope *ReferenceScope, query parser.DeleteQuery
 		}
 	}
 
-	fileInfos := make([]*FileInfo, 0)
-	deletedCounts := make([]int, 0)
+	// Every point of failure lies before the first table is stored, so that a statement
+	// with several target tables either changes all of them or none.
 	for k, v := range viewsToDelete {
 		if ctx.Err() != nil {
 			return nil, nil, ConvertContextError(ctx.Err())
@@ -687,7 +687,11 @@ func Delete(ctx context.Context, scope *ReferenceScope, query parser.DeleteQuery
 		if err = v.RestoreHeaderReferences(); err != nil {
 			return nil, nil, err
 		}
+	}
 
+	fileInfos := make([]*FileInfo, 0)
+	deletedCounts := make([]int, 0)
+	for k, v := range viewsToDelete {
 		if v.FileInfo.IsInMemoryTable() {
 			scope.ReplaceTemporaryTable(v)
 		} else if v.FileInfo.IsFile() {
